@@ -193,7 +193,7 @@ def constructor(run, repo):
     aw = {fold_value(cm, k): fold_num(cm, v).v for k, v in zip(node.keys, node.values)}
     n = 0
     for label, net in NETWORKS:
-        for rev in (False, True):
+        for rev, as_list in ((False, False), (True, False), (False, True)):
             order = list(reversed(net)) if rev else list(net)
             I = Interp(repo)
             D = I.D
@@ -206,8 +206,11 @@ def constructor(run, repo):
                 model.d[nm] = sp
                 network.d[nm] = D.sym('feed_' + nm)
             eq = Obj('eq', ci, closed=True)
-            key = '%s%s' % (label, ', reversed' if rev else '')
-            r = I.call_method(eq, '__init__', [], {'model': model, 'network': network})
+            key = '%s%s%s' % (label, ', reversed' if rev else '', ', species given as a list' if as_list else '')
+            if as_list:
+                label = label + ' [species list]'
+            r = I.call_method(eq, '__init__', [], {'model': ListV(list(model.d.values())) if as_list else model,
+                                                   'network': network})
             n += 1
             if isinstance(r, Raised):
                 run.fail('REF.constructor', 'Equilibrium.__init__', label,
